@@ -481,6 +481,46 @@ func TestSDRRetrievalAfterAbandonedWalk(t *testing.T) {
 	})
 }
 
+// TestLongSessions: the same command (and the same BMC answer) many times over on
+// one session and on the session-less connection: the result of the n-th call is
+// the result of the first, for n up to past every width a counter on the way
+// might have (6-bit message sequence numbers, 8-bit fields).
+func TestLongSessions(t *testing.T) {
+	for i, suite := range []ref.Suite{hx.Suites12()[int(ev.Seed)%12], hx.Suites12()[(int(ev.Seed)+5)%12]} {
+		c := hx.Creds{User: "admin", Password: []byte("pw"), Priv: 4, Suite: suite, Seed: uint64(ev.Seed)*29 + uint64(i)}
+		w := hx.NewWorldFor(c, true)
+		sess, err := w.T.NewV2Session(context.Background(), c.Opts())
+		if err != nil {
+			t.Fatalf("harness: %v", err)
+		}
+		var firstIn, firstOut string
+		for n := 1; n <= 600; n++ {
+			ctx, cancel := w.Ctx(2)
+			st, err := sess.GetChassisStatus(ctx)
+			cancel()
+			in := fmt.Sprintf("err=%v %s", err != nil, dumpOrNil(st, err))
+			ctx, cancel = w.Ctx(2)
+			g, err := w.T.GetSystemGUID(ctx)
+			cancel()
+			out := fmt.Sprintf("err=%v %x", err != nil, g)
+			ev.Eval()
+			if n == 1 {
+				firstIn, firstOut = in, out
+				if strings.HasPrefix(in, "err=true") || strings.HasPrefix(out, "err=true") {
+					t.Fatalf("harness: first calls failed: %s / %s", in, out)
+				}
+			}
+			if in != firstIn || out != firstOut {
+				msg := fmt.Sprintf("call %d on the same session / connection returns something else than call 1 although the BMC answers the same:\n in-session: %s (first: %s)\n session-less: %s (first: %s)", n, in, firstIn, out, firstOut)
+				ev.Violation("TestLongSessions", map[string]any{"suite": suite.String(), "call": n}, msg)
+				t.Fatalf("%s", msg)
+			}
+		}
+		ev.NonTrivial(fmt.Sprintf("long|%v", suite))
+	}
+	ev.Label("long-sessions")
+}
+
 var errBudget = fmt.Errorf("time budget exhausted")
 
 func dumpOrNil(l interface{}, err error) string {
@@ -722,6 +762,6 @@ func TestSessionPairs(t *testing.T) {
 }
 
 func TestCoverage(t *testing.T) {
-	ev.RequireLabels(t, 1, "pairs-complete", "method-pairs-complete", "sdr-retrieval-after-abandoned-walk", "command-reuse:later-reply-without-body", "session-pair:second-open-established", "session-pair:both-discover", "layer-branch-differs:GetDeviceIDRsp", "layer-branch-differs:GetSessionInfoRsp", "layer-branch-differs:GetChassisStatusRsp",
+	ev.RequireLabels(t, 1, "pairs-complete", "method-pairs-complete", "sdr-retrieval-after-abandoned-walk", "long-sessions", "command-reuse:later-reply-without-body", "session-pair:second-open-established", "session-pair:both-discover", "layer-branch-differs:GetDeviceIDRsp", "layer-branch-differs:GetSessionInfoRsp", "layer-branch-differs:GetChassisStatusRsp",
 		"layer-branch-differs:OpenSessionRsp", "layer-branch-differs:RAKPMessage2", "layer-branch-differs:GetDCMISensorInfoRsp", "layer-branch-differs:DCMICaps", "wrapper:V1Session", "wrapper:V2Session", "wrapper:Message", "wrapper-after-rejected:V2Session")
 }
